@@ -13,12 +13,16 @@ OkFormat(e) ==
 \* ---- C07: the family of lossless formats ----
 Kinds(fmt) == LET it == Items(fmt) IN {it[k][2] : k \in {k \in 1..Len(it) : it[k][1] = "int"}}
 HasS(K, c) == \E sp \in K : sp.kind = "simple" /\ sp.n = c
+\* the format contains the conversion %c handed to the C library (an unescaped '%' directly followed by c)
+RECURSIVE BackRun(_, _)
+BackRun(s, i) == IF i >= 1 /\ s[i] = 37 THEN 1 + BackRun(s, i - 1) ELSE 0
+Conv(fmt, c) == \E i \in 1..(Len(fmt) - 1) : fmt[i] = 37 /\ fmt[i + 1] = c /\ BackRun(fmt, i) % 2 = 1
 Lossless(fmt, cs, off) ==
   LET K == Kinds(fmt) IN
      /\ (HasS(K, 89) \/ ((\E sp \in K : sp.kind = "E4Y") /\ WLe(W(-999), cs[1]) /\ WLe(cs[1], W(9999))))
      /\ \/ (HasS(K, 109) /\ (HasS(K, 100) \/ HasS(K, 101)))                 \* %m with %d | %e
         \/ ((HasS(K, 85) \/ HasS(K, 87)) /\ (HasS(K, 117) \/ HasS(K, 119))) \* week number with weekday
-     /\ (HasS(K, 72) /\ HasS(K, 77))                                        \* %H %M
+     /\ ((HasS(K, 72) \/ (Conv(fmt, 73) /\ Conv(fmt, 112))) /\ HasS(K, 77))   \* (%H | %I with %p, in either order) %M
      /\ \/ (\E sp \in K : sp.kind = "EstarS" \/ (sp.kind = "EnS" /\ sp.n >= 15))
         \/ (HasS(K, 83) /\ (\E sp \in K : sp.kind = "Estarf" \/ (sp.kind = "Enf" /\ sp.n >= 15)))
      /\ \/ (\E sp \in K : sp.kind = "colz" /\ sp.n \in {2, 3})              \* full-resolution offset
